@@ -109,6 +109,7 @@ thread_local! {
 
 pub(crate) fn clear_pending() {
     PENDING.with(|p| p.borrow_mut().clear());
+    HELP_NESTING.with(|n| n.set(0));
 }
 
 /// Removes the entry when the owner's arm `a` returns or unwinds.
@@ -121,8 +122,27 @@ impl Drop for PendingGuard {
     }
 }
 
+thread_local! {
+    static HELP_NESTING: std::cell::Cell<usize> = std::cell::Cell::new(0);
+}
+
+/// Helping nests (a helped job waits and helps in turn); the real pool's nesting is bounded
+/// by its stack as well. Beyond this depth a waiting worker just waits.
+const MAX_HELP_NESTING: usize = 48;
+
 /// The current worker waits for a stolen job: let it help, as often as the schedule says.
 fn help_while_waiting(here: usize) {
+    if HELP_NESTING.with(|n| n.get()) >= MAX_HELP_NESTING {
+        return;
+    }
+    struct Nest;
+    impl Drop for Nest {
+        fn drop(&mut self) {
+            HELP_NESTING.with(|n| n.set(n.get().saturating_sub(1)));
+        }
+    }
+    HELP_NESTING.with(|n| n.set(n.get() + 1));
+    let _nest = Nest;
     loop {
         // candidates: own most recent pending job, oldest pending job of any other worker
         let (local, foreign) = PENDING.with(|p| {
